@@ -999,6 +999,10 @@ def make_inbreeding_part_body(n):
                            slack=SL, scale=one)
                     c_le(env, 'F>0: proj(nsub=%d)[%d,%d] >= 0' % (nsub, i, j), 0, M[i, j])
                     tot = tot + M[i, j]
+                    # history: the F=0 matrix requested AFTER the F>0 one is still the hypergeometric projection
+                    # (no memo shared between the two, cf. Numerics._projection_cache)
+                    env.eq('history: proj_0(nsub=%d)[%d,%d] after proj_F is hypergeometric' % (nsub, i, j), M0[i, j],
+                           env.const(Fr(math.comb(i, j) * math.comb(n - i, nsub - j), math.comb(n, nsub))))
                     d = M[i, j] - M0[i, j]
                     lab = 'F->0: |proj_F - proj_0|[%d,%d] <= %d F (nsub=%d)' % (i, j, LIP, nsub)
                     if env.symbolic:
